@@ -25,7 +25,8 @@ TRUSTED = ["PAG.copy / remove_edge / orient_uncertain_edge, ADMG.add_edge taken 
 ASSUMPTIONS = ["at most one of the ten edge kinds per node pair (simple marks)", "default edge-type names", "int labels (C15)"]
 IMPL_TIMEOUT = 20
 SPOT_N = 10
-VERDICTS = ["structure", "acyclic", "no-almost-directed-cycle", "unshielded-colliders-marked", "valid-mag", "markov-equivalent"]
+VERDICTS = ["structure", "acyclic", "no-almost-directed-cycle", "unshielded-colliders-marked", "valid-mag", "markov-equivalent",
+            "hypothesis:pag-invariants(pag_hypsb)", "hypothesis:rounds-extendable(rounds_ok_b)"]
 
 LEVEL_TEXT = ("Coq proofs about the executable model pag_to_mag_model (three phases, Meek closure of C08, repaired assembly): "
               "UNBOUNDED, every mark graph — p2m_structure (nodes, adjacencies, no circle left, every arrowhead/tail kept, every "
@@ -38,11 +39,24 @@ LEVEL_TEXT = ("Coq proofs about the executable model pag_to_mag_model (three pha
               "the shared oracle msep_dec), by vm_compute (n=4 table-driven per skeleton, soundness of the table proved); "
               "p2m_member_bounded_4_all lifts it to EVERY graph m with V m = 0..n-1 and valid_mag_spec m = true, whatever the "
               "order / duplication of its edge lists (all_mags_covers_every_mag + graph extensionality of every oracle, C09/Ext.v). "
+              "ALL SIZES, CONDITIONAL — p2m_shape_all_sizes_conditional: for every PAG g satisfying the invariants pag_hyps (no self "
+              "loop, an o-o pair carries no other edge, no -o edge, Zhang 2008 Lemma 3.3.1 for o-o edges, directed layer acyclic, no "
+              "almost directed cycle) and the hypothesis rounds_extendable (at each round of the model's run the graph with the "
+              "hand-oriented edge has a v-structure-free consistent DAG extension) the result has no directed cycle, no bidirected "
+              "edge between a node and its ancestor, and every unshielded collider of the result is a collider of g; "
+              "p2m_component_all_sizes: under rounds_extendable the circle component ends without undirected edge, acyclic, "
+              "without unshielded collider (via C08 meek_extensions_preserved and the reflection of the extension oracle). "
+              "BOUNDED discharge of rounds_extendable (Meek's lemma on chordal graphs) — meek_chordal_orientation_bounded_5 / "
+              "chordal_iff_vfree_extension_bounded_5: all 1024 undirected graphs on <=5 nodes; pag_hyps_hold_on_pags_of_mags_bounded_3. "
               "REFUTED for the assembly as coded before the repair — p2m_structure_code_refuted. "
               "BY CORRESPONDENCE — the implementation's own result on PAGofMAG(n) and on MARKS(n) passes the same oracle "
               "verdicts (witness validity, not identity), argument unchanged; the unbounded membership clause (Zhang 2008 Thm 2) "
               "is stated (p2m_member_full) and not attempted.")
-LEVEL_NOTE = ("bounded theorems are stated with the boolean oracles (msep_dec; its reflection to the Prop msep is Graph/MSepDec.v, "
+LEVEL_NOTE = ("MISSING for an unconditional all-sizes shape theorem: (i) chordal circle component => rounds_extendable for all sizes "
+              "(= every undirected edge of a graph closed under R1-R4 is extendable in both directions, Meek 1995 Thm 4; needs "
+              "perfect-elimination-ordering theory of chordal graphs, not formalised; proved here only for all graphs on <=5 nodes), "
+              "(ii) pag_hyps for the PAG of every MAG (Zhang 2008 Lemma 3.3.1; kernel-checked n<=3, harness-checked n<=4 and on the "
+              "chordal 5-6 node stream through the booleans pag_hypsb / rounds_ok_b in run_case mode 1); bounded theorems are stated with the boolean oracles (msep_dec; its reflection to the Prop msep is Graph/MSepDec.v, "
               "not imported here); which undirected edge the temporary CPDAG yields first is not modelled (any order is covered by "
               "the structural theorem; membership of the implementation's actual result is checked by the oracle); "
               "-o edges occur only in the structural stream (no PAG of a MAG without undirected edges has one)")
@@ -205,7 +219,7 @@ def encode(case):
 
 def decode(case, v):
     if _full_model(case):
-        return {"m": _graph(v[0]), "verdicts": [bool(x) for x in v[1]]}
+        return {"m": _graph(v[0]), "verdicts": [bool(x) for x in v[1]] + [bool(x) for x in v[2]]}
     return {"m": _graph(v[0]), "verdicts": [bool(v[1])]}
 
 
